@@ -24,6 +24,7 @@ package stack
 //@   panics never
 //@
 //@ func (s *Stack) Push(value object.Object)
+//@   requires push.good: validObj(value)
 //@   modifies s.entries, s.entries[*]
 //@   ensures push.len: len(s.entries) == old(len(s.entries)) + 1
 //@   ensures push.keep: forall i in 0..old(len(s.entries)) :: s.entries[i] === old(s.entries[i])
@@ -35,4 +36,5 @@ package stack
 //@   ensures pop.empty: old(len(s.entries)) == 0 ==> err != nil && result == nil && s.entries === old(s.entries)
 //@   ensures pop.nonempty: old(len(s.entries)) > 0 ==> err == nil && result === old(s.entries[len(s.entries)-1])
 //@                         && s.entries === old(s.entries)[:old(len(s.entries))-1]
+//@   ensures pop.good: old(len(s.entries)) > 0 ==> validObj(result)
 //@   panics never
